@@ -109,7 +109,7 @@ def subStr (u : Sub) : String := s!"{u.b}:{u.e}"
 
 /-- `IDSubspace.from_string` (`none` = `ValueError`). -/
 def subOfString (s : String) : Option Sub :=
-  if s.isEmpty then some Sub.full
+  if s = "" then some Sub.full
   else match splitOnChar ':' s.toList with
     | [a, b] =>
       match pyInt (String.ofList a), pyInt (String.ofList b) with
@@ -246,20 +246,30 @@ def constraintsOk (o : Opt) (v : Val) : Bool :=
        (!(o.name = "max_cols") || decide (0 < i)) && (!(o.name = "max_rows") || (decide (0 < i) && decide (i ≤ 256)))
    | _ => true)
 
+/-- the "normalize values specified as strings" step: `'auto'` and non-strings pass unchanged;
+    `none` = a conversion raised (re-raised as a `ValueError` naming the option) -/
+def preString (stateDir : String) (o : Opt) (v : Val) : Option Val :=
+  match v with
+  | .sc (.str s) => if s ≠ "auto" then normalizeString stateDir o s else some v
+  | _ => some v
+
+/-- `if field_type is float and type(value) is int: value = float(value)` -/
+def promote (o : Opt) (v : Val) : Val :=
+  match v with
+  | .sc (.int i) => if o.ty = [.base .float] then Val.float ⟨i, 1⟩ else v
+  | _ => v
+
+/-- type verification and the additional constraints -/
+def checkOpt (o : Opt) (v : Val) : Except CErr Val :=
+  if !verifyType v o.ty then .error (.invalid o.name)
+  else if !constraintsOk o v then .error (.invalid o.name)
+  else .ok v
+
 /-- `validate_and_normalize(name, value)` for a known option. -/
 def normalizeOpt (stateDir : String) (o : Opt) (v : Val) : Except CErr Val :=
-  let v? : Option Val := match v with
-    | .sc (.str s) => if s ≠ "auto" then normalizeString stateDir o s else some v
-    | _ => some v
-  match v? with
+  match preString stateDir o v with
   | none => .error (.invalid o.name)
-  | some v =>
-    let v := match v with
-      | .sc (.int i) => if o.ty = [.base .float] then Val.float ⟨i, 1⟩ else v
-      | _ => v
-    if !verifyType v o.ty then .error (.invalid o.name)
-    else if !constraintsOk o v then .error (.invalid o.name)
-    else .ok v
+  | some v => checkOpt o (promote o v)
 
 def normalize (stateDir : String) (name : String) (v : Val) : Except CErr Val :=
   match lookupOpt name with
@@ -299,47 +309,62 @@ def Cfg.provenance (stateDir : String) (c : Cfg) (name : String) : String :=
       | some o => if e.val = defaultOf stateDir o then "default" else "set in code"
       | none => "?"
 
+/-- the provenance label of a dictionary layer: `config.get("provenance", "set from dict")` -/
+def dictLabel (d : List (String × Val)) : Option String :=
+  match d.find? (·.1 == "provenance") with
+  | some (_, .sc (.str s)) => some s
+  | some (_, .sc .none) => none
+  | some (_, _) => some "?"
+  | none => some "set from dict"
+
+/-- one iteration of the loop of `override_from_dict` -/
+def dictStep (stateDir : String) (p : Option String) (c : Cfg) (kv : String × Val) : Except CErr Cfg :=
+  if kv.1 == "provenance" then pure c
+  else if kv.2 = Val.none then pure c
+  else match normalize stateDir kv.1 kv.2 with
+    | .ok nv => pure (c.set kv.1 nv p)
+    | .error e => throw e
+
 /-- `override_from_dict(config)`: the `provenance` key labels the layer, `None` sets nothing. -/
 def applyDict (stateDir : String) (c : Cfg) (d : List (String × Val)) : Except CErr Cfg :=
-  let p : Option String := match d.find? (·.1 == "provenance") with
-    | some (_, .sc (.str s)) => some s
-    | some (_, .sc .none) => none
-    | some (_, _) => some "?"
-    | none => some "set from dict"
-  d.foldlM (init := c) fun c (k, v) =>
-    if k == "provenance" then pure c
-    else if v = Val.none then pure c
-    else do
-      let nv ← normalize stateDir k v
-      pure (c.set k nv p)
+  d.foldlM (dictStep stateDir (dictLabel d)) c
 
 /-- `"TUPIMAGE_" + name.upper()` -/
 def envVarName (name : String) : String :=
   "TUPIMAGE_" ++ String.ofList (name.toList.map fun c => if 'a' ≤ c ∧ c ≤ 'z' then Char.ofNat (c.toNat - 32) else c)
 
+/-- one iteration of the loop of `override_from_env` -/
+def envStep (stateDir : String) (env : List (String × String)) (c : Cfg) (o : Opt) : Except CErr Cfg :=
+  match env.find? (·.1 == o.name) with
+  | none => pure c
+  | some kv =>
+    match normalizeOpt stateDir o (.str kv.2) with
+    | .ok nv => pure (c.set o.name nv (some s!"set via {envVarName o.name}"))
+    | .error e => throw e
+
 /-- `override_from_env()`: options are scanned in declaration order; `env` maps option names to the
     value of their `TUPIMAGE_<NAME>` variable. -/
 def applyEnv (stateDir : String) (c : Cfg) (env : List (String × String)) : Except CErr Cfg :=
-  Tup.Gen.options.foldlM (init := c) fun c o =>
-    match env.find? (·.1 == o.name) with
-    | none => pure c
-    | some (_, s) => do
-      let nv ← normalizeOpt stateDir o (.str s)
-      pure (c.set o.name nv (some s!"set via {envVarName o.name}"))
+  Tup.Gen.options.foldlM (envStep stateDir env) c
 
 def truthyBool (v : Val) : Bool := match v with | .sc (.bool b) => b | _ => false
 
+/-- one iteration of the loop of `override_from_toml_string`; the flag records an unknown key -/
+def fileStep (stateDir : String) (p : String) (st : Cfg × Bool) (kv : String × Val) : Except CErr (Cfg × Bool) :=
+  match lookupOpt kv.1 with
+  | none => pure (st.1, true)
+  | some o =>
+    match normalizeOpt stateDir o kv.2 with
+    | .ok nv => pure (st.1.set kv.1 nv (some p), st.2)
+    | .error e => throw e
+
 /-- `override_from_toml_file(path)` on the parsed key/value pairs (file order). -/
-def applyFile (stateDir : String) (c : Cfg) (absPath : String) (kvs : List (String × Val)) : Except CErr Cfg := do
-  let p := s!"set from file {absPath}"
-  let (c, unknown) ← kvs.foldlM (init := (c, false)) fun (c, unk) (k, v) =>
-    match lookupOpt k with
-    | none => pure (c, true)
-    | some o => do
-      let nv ← normalizeOpt stateDir o v
-      pure (c.set k nv (some p), unk)
-  let ignore := match c.get? "ignore_unknown_attributes" with | some e => truthyBool e.val | none => false
-  if unknown && !ignore then throw .unknownKeys else pure c
+def applyFile (stateDir : String) (c : Cfg) (absPath : String) (kvs : List (String × Val)) : Except CErr Cfg :=
+  match kvs.foldlM (fileStep stateDir s!"set from file {absPath}") (c, false) with
+  | .error e => .error e
+  | .ok (c, unknown) =>
+    let ignore := match c.get? "ignore_unknown_attributes" with | some e => truthyBool e.val | none => false
+    if unknown && !ignore then .error .unknownKeys else .ok c
 
 structure Layers where
   /-- config file (`TUPIMAGE_CONFIG` or `config=path`): absolute path and parsed pairs -/
@@ -352,23 +377,35 @@ structure Layers where
   overrides : List (String × Val)
 deriving Repr, Inhabited
 
-/-- The configuration part of `TupimageTerminal.__init__`. -/
-def construct (stateDir : String) (insideTmux : Bool) (l : Layers) : Except CErr Cfg := do
-  let c := Cfg.init stateDir
-  let c ← match l.file with
-    | none => pure c
-    | some (path, kvs) => applyFile stateDir c path kvs
-  let c ← applyEnv stateDir c l.env
-  let c ← applyDict stateDir c l.kwargs
-  let c ← applyDict stateDir c l.overrides
-  -- num_tmux_layers == "auto" is expanded from the environment
+/-- `config.override_from_dict(kwargs); config.override_from_dict(config_overrides)` -/
+def applyCallTime (stateDir : String) (l : Layers) (c : Cfg) : Except CErr Cfg :=
+  (applyDict stateDir c l.kwargs).bind fun c => applyDict stateDir c l.overrides
+
+/-- `config.override_from_env()` and then the call-time layers -/
+def applyAfterFile (stateDir : String) (l : Layers) (c : Cfg) : Except CErr Cfg :=
+  (applyEnv stateDir c l.env).bind (applyCallTime stateDir l)
+
+/-- a fresh `TupimageConfig()`, the config file if there is one, then the other layers -/
+def applyLayers (stateDir : String) (l : Layers) : Except CErr Cfg :=
+  let afterFile : Except CErr Cfg :=
+    match l.file with
+    | none => Except.ok (Cfg.init stateDir)
+    | some (path, kvs) => applyFile stateDir (Cfg.init stateDir) path kvs
+  afterFile.bind (applyAfterFile stateDir l)
+
+/-- `num_tmux_layers == "auto"` is expanded from the environment (`TMUX`, `TERM`) -/
+def expandTmux (stateDir : String) (insideTmux : Bool) (c : Cfg) : Cfg :=
   match c.get? "num_tmux_layers" with
   | some e =>
       if e.val = Val.str "auto" then
-        let p := s!"expanded from 'auto' ({c.provenance stateDir "num_tmux_layers"})"
-        pure (c.set "num_tmux_layers" (.int (if insideTmux then 1 else 0)) (some p))
-      else pure c
-  | none => pure c
+        c.set "num_tmux_layers" (.int (if insideTmux then 1 else 0))
+          (some s!"expanded from 'auto' ({c.provenance stateDir "num_tmux_layers"})")
+      else c
+  | none => c
+
+/-- The configuration part of `TupimageTerminal.__init__`. -/
+def construct (stateDir : String) (insideTmux : Bool) (l : Layers) : Except CErr Cfg :=
+  (applyLayers stateDir l).map (expandTmux stateDir insideTmux)
 
 /-! ### TOML dump on the typed-value channel -/
 
